@@ -70,9 +70,45 @@ def benchmark_half(ctx):
   ctx.log('  benchmark half: %d runner programs x %d designers, 3 executions each' % (len(chosen), len(facts)))
 
 
+def process_half(ctx):
+  """'... independent of wall-clock time, global random state, process ...': the same seeded benchmark configurations in
+  separate interpreter processes with different string-hash seeds, clock offsets and global RNG states."""
+  import json
+  import os
+  import subprocess
+  import sys
+  verif = os.path.dirname(os.path.dirname(os.path.abspath(__file__)))
+  runs = []
+  procs = []
+  for hs, off in (('0', 0.0), ('1', 4321.5), ('2', 98765.25), ('random', 17.0)):
+    env = dict(os.environ, PYTHONHASHSEED=hs, PYTHONPATH=os.pathsep.join([os.path.join(verif, 'envshim'), os.path.join(verif, 'lib')]))
+    procs.append((hs, off, subprocess.Popen([sys.executable, os.path.join(verif, 'lib', 'bench_child.py'), str(off)], env=env, stdout=subprocess.PIPE,
+                                             stderr=subprocess.PIPE, text=True)))
+  import tlc
+  for hs, off, p in procs:
+    out, err = p.communicate(timeout=1500)
+    line = [l for l in out.splitlines() if l.startswith('BENCH ')]
+    if not line:
+      raise tlc.MachineryError('benchmark child (PYTHONHASHSEED=%s) printed nothing: %s' % (hs, err[-800:]))
+    runs.append((hs, off, json.loads(line[0][6:])))
+  base = runs[0][2]
+  n = 0
+  for key in sorted(base):
+    n += 1
+    vals = {hs: r[key] for hs, off, r in runs}
+    if len(set(vals.values())) > 1:
+      ctx.violation({'via': 'process', 'what': 'differs_between_processes', 'config': key.rsplit('/', 1)[0]},
+                    {'kind': 'process', 'config': key, 'digest_by_PYTHONHASHSEED': vals})
+  refused = sum(1 for v in base.values() if str(v).startswith('refused'))
+  ctx.coverage['cross_process_runs'] = {'configurations': n, 'processes': len(runs), 'refused': refused}
+  ctx.coverage['evaluations'] += n * len(runs)
+  ctx.log('  cross-process half: %d seeded benchmark configurations x %d interpreter processes (different hash seeds / clocks), %d refused' % (n, len(runs), refused))
+
+
 _orig_run = run
 
 
 def run(ctx):  # noqa: F811
   _orig_run(ctx)
   benchmark_half(ctx)
+  process_half(ctx)
